@@ -74,6 +74,8 @@ class SecSim:
                 _FORGE_CACHE.clear()
             _FORGE_CACHE[ck] = fg
         self.known.setdefault(fg.cert, fg.kind)
+        if fg.canon is not None and fg.canon != fg.cert:
+            self.known.setdefault(fg.canon, fg.kind)
         return fg
 
     def _resolve(self, spec: dict) -> sc.Forged:
